@@ -60,6 +60,9 @@ class HistoryScanner(UDSScanner):
             call: dict[str, Any] = {"k": k, "pdu": pdu, "state": snap, "analyze": bool(step.get("analyze")), "out": "inflight", "t0": world.loop.time()}
             self.calls.append(call)
             rec.rec("call_begin", k=k)
+            if plan["crash"] and plan["crash"]["at"] == k:
+                q = getattr(self.db_handler, "_execute_queue", None)
+                self.backlog_at_crash = q.qsize() if q is not None else 0
             if plan["crash"] and plan["crash"]["kind"] == "sigint" and plan["crash"]["at"] == k:
                 world.sigint_at(world.loop.time() + plan["crash"]["delay"], self.sig_fired)
             try:
@@ -233,6 +236,20 @@ class C11(Check):
         plan["db_locked_run_meta"] = rng.random() < 0.1
         plan["net_seed"] = rng.getrandbits(30)
         plan["segment"] = rng.choice(["whole", "random"])
+        plan["backlog"] = 0
+        if index % 400 == 200:
+            # a long run against a database far slower than the ECU: more than a thousand rows are waiting in the writer queue
+            # when the run is interrupted (every one of them belongs to a completed exchange)
+            nb = rng.choice([1100, 1300, 1700])
+            plan["backlog"] = nb
+            plan["history"] = []
+            plan["outcomes"] = ["asis"] * (2 * nb + 2)
+            plan["tp"] = None
+            plan["db_lat"] = 0.05
+            plan["crash"] = {"kind": "sigint", "at": rng.randrange(1040, nb), "delay": rng.choice([0.0005, 0.004, 0.012, 0.03, 0.07])}
+            plan["db_locked"] = []
+            plan["db_locked_run_meta"] = False
+            plan["log_off_at_start"] = False
         return plan
 
     def simplify(self, plan: dict[str, Any]) -> Any:
@@ -261,6 +278,9 @@ class C11(Check):
         return res
 
     def _run(self, plan: dict[str, Any], world: CmdWorld, res: dict[str, Any]) -> None:
+        if plan.get("backlog"):
+            # (expanded here so that the replay file stays small) distinct identifiers: every row is attributable
+            plan = dict(plan, history=[{"pdu": f"22{0x1000 + i:04x}", "max_retry": 0, "timeout": 0.3, "analyze": False} for i in range(plan["backlog"])])
         tmp = Path(world.tmp)
         rec = world.rec
         world.net.policy_factory = lambda i, d: Policy(seed=plan["net_seed"] + 2 * i + (d == "s2c"), segment=plan["segment"])
@@ -411,7 +431,13 @@ class C11(Check):
             if x["k"] is not None and x["k"] in calls and "t1" in calls[x["k"]]:
                 t1 = calls[x["k"]]["t1"]
             optional = False
-            if sig_t is not None and t1 >= sig_t - 1e-9:
+            # the client task holds the final reply of this exchange (its last transport read returned a reply that is neither
+            # responsePending nor busyRepeatRequest): the exchange is complete, whatever happens to the task afterwards -
+            # between that read and the hand-over to the database writer the unchanged client never suspends
+            reads_ = [bytes.fromhex(r_) if isinstance(r_, str) else r_ for r_ in x["reads"]]
+            rq0_ = (bytes.fromhex(x["req"]) if isinstance(x["req"], str) else x["req"])[0]
+            complete_on_wire = bool(reads_) and reads_[-1] != b"" and not (len(reads_[-1]) == 3 and reads_[-1][0] == 0x7F and reads_[-1][1] == rq0_ and reads_[-1][2] in (0x78, 0x21)) and not x["errs"]
+            if sig_t is not None and t1 >= sig_t - 1e-9 and not (complete_on_wire and x["k"] is not None):
                 optional = True  # in flight (or started) when the run was cancelled
             # order by the simulator's event sequence numbers, not by (tying) virtual time
             end_seq = call_end_seq.get(x["k"]) if x["k"] is not None and x["k"] in call_end_seq else x.get("seq_last", x["seq"])
@@ -437,7 +463,7 @@ class C11(Check):
                 nonpending = [r for r in data_reads if not (len(r) == 3 and r[0] == 0x7F and r[1] == rq0 and r[2] == 0x78) and r != b""]
                 reply = nonpending[-1] if nonpending else None
                 exc = "?"  # unknown to the monitor (tester-present worker / setup code)
-                if c is not None and c["out"] in ("cancelled", "inflight"):
+                if c is not None and c["out"] in ("cancelled", "inflight") and not complete_on_wire:
                     optional = True
             expected.append({"req": bytes.fromhex(x["req"]) if isinstance(x["req"], str) else x["req"], "reply": reply, "exc": exc, "optional": optional or not on,
                              "call": c, "x": x, "must_absent": not on and not optional})
@@ -634,6 +660,10 @@ class C11(Check):
         if toggles:
             bump(res["faults"], "logging_toggled", len(toggles))
         bump(res["probes"], "rows_checked", n_checked)
+        if getattr(cmd, "backlog_at_crash", 0) > 1000:
+            bump(res["probes"], "over_1000_rows_queued_when_the_run_was_interrupted")
+        if plan.get("backlog"):
+            bump(res["faults"], "database_far_slower_than_the_ecu")
         if world.sql.orphaned:
             bump(res["probes"], "db_ops_completed_after_caller_cancelled", world.sql.orphaned)
 
